@@ -104,6 +104,7 @@ type Pool struct {
 	MemKB   int64         // ulimit -v in KB (0 = 8 GB)
 	Timeout time.Duration // per task (0 = 10 min); a timeout kills the worker
 	Env     []string
+	Recycle int // restart a worker after this many tasks (0 = never)
 }
 
 func DefaultWorkers() int {
@@ -190,6 +191,7 @@ func (p *Pool) Map(kind string, tasks [][]byte, onResult func(Result), stop func
 		go func() {
 			defer wg.Done()
 			var w *worker
+			done := 0
 			defer func() {
 				if w != nil {
 					w.kill()
@@ -237,9 +239,13 @@ func (p *Pool) Map(kind string, tasks [][]byte, onResult func(Result), stop func
 						res.Err = fmt.Errorf("worker timeout after %s", timeout)
 					}
 				}
+				done++
 				if res.Err != nil {
 					time.Sleep(50 * time.Millisecond)
 					res.Stderr = w.stderr.String()
+					w.kill()
+					w = nil
+				} else if p.Recycle > 0 && done%p.Recycle == 0 {
 					w.kill()
 					w = nil
 				}
